@@ -54,8 +54,9 @@ def search(S):
         if k % 4 == 3:
             decl = 0.0
         params = {"sim/enable_noise": False, "sim/mag_decl": decl, "sim/mag_incl": incl, "mrp/mag_decl": decl}
-        if k % 3 == 2:
-            params.update({"sim/dt_mag": 1.0 / 25, "mrp/dt_min_mag": 1.0 / 25, "logger/dt": 1.0 / 100})
+        if k % 3 == 2 or k == 1:
+            # corrections rate-limited below the sensor rates: 25 Hz magnetometer, accelerometer corrections at 50 Hz on a 200 Hz IMU
+            params.update({"sim/dt_mag": 1.0 / 25, "mrp/dt_min_mag": 1.0 / 25, "mrp/dt_min_accel": 1.0 / 50, "logger/dt": 1.0 / 100})
         inp = {"x0": x0.tolist(), "initialize": initialize, "params": {a: (float(b) if not isinstance(b, bool) else b) for a, b in params.items()}, "tf": 20}
         sink = io.StringIO()
         try:
